@@ -24,9 +24,11 @@ import (
 // cleanupSleepCmdCache) with configurable TimestampWindow, SeenCacheTTL and MaxSeenCacheSize and
 // real Ed25519 keys, under a VIRTUAL clock: `adv d` moves every instant the flooder recorded
 // (cache entries' SeenAt, the pending wake's storage time and — re-signed — its timestamp) d
-// seconds into the past, and later commands are stamped relative to the virtual clock. All
-// offsets are whole seconds and multiples of 3 (so is the window), which keeps every age at
-// least one second away from the second-granularity edges of the window; TTLs end in .5 s.
+// seconds into the past, and later commands are stamped relative to the virtual clock. Offsets
+// are whole seconds; the real clock adds a fraction of a second to every age, so the generator
+// leaves out exactly the two whole-second ages (window-1, -(window+1)) whose verdict depends on
+// that fraction. The edges themselves are probed by `edge` (timestamp window, within 1 ns / 2 ms)
+// and `cleanupat` (cache expiry, exact to the nanosecond).
 //
 //	reset <signing 0|1> <window s> <ttl ms> <max size>           -> ok
 //	d <s|w> <from> <origin> <id> <ts> <sig> <seenby>             -> acc=<0|1> fwd=<items|->
@@ -55,12 +57,13 @@ func (s *c29Sender) SendToPeer(p identity.AgentID, f *protocol.Frame) error {
 func (s *c29Sender) GetPeerIDs() []identity.AgentID { return s.peers }
 
 type c29World struct {
-	f      *flood.Flooder
-	sender *c29Sender
-	local  identity.AgentID
-	keys   [2]*crypto.SigningKeypair
-	base   int64 // real Unix second at reset = virtual second 0
-	voff   int64 // virtual seconds elapsed
+	f       *flood.Flooder
+	sender  *c29Sender
+	local   identity.AgentID
+	keys    [2]*crypto.SigningKeypair
+	base    int64 // real Unix second at reset = virtual second 0
+	voff    int64 // virtual seconds elapsed
+	edgeSeq uint64
 	// real command content -> (tokens, how to rebuild it at another virtual offset)
 	labels map[string]*c29Label
 }
@@ -289,6 +292,18 @@ func c29Run(line string) string {
 		p, _ := strconv.Atoi(f[1])
 		w.f.OnPeerConnected(c29ID(w, p))
 		return "fwd=" + c29Fwd(w)
+	case "cleanupat": // cleanupat <origin> <id> <delta ns>: cleanup at SeenAt(key) + TTL + delta, exactly
+		origin, _ := strconv.Atoi(f[1])
+		id, err := strconv.ParseUint(f[2], 10, 64)
+		must(err)
+		delta, err := strconv.ParseInt(f[3], 10, 64)
+		must(err)
+		if !w.f.VerifC29CleanupAt(c29ID(w, origin), id, time.Duration(delta)) {
+			return "nokey"
+		}
+		return fmt.Sprintf("n=%d", w.f.SleepCommandSeenCacheSize())
+	case "edge": // edge <past|future> <in|out> <s|w>: a valid command whose age is at the edge of the timestamp window
+		return c29Edge(w, f[1], f[2], f[3] == "w")
 	case "stress":
 		// one fresh valid command delivered from n goroutines at once: the seen-cache test-and-set is a
 		// single critical section, so exactly one delivery finds it new
@@ -325,6 +340,75 @@ func c29Run(line string) string {
 		return fmt.Sprintf("stress acc=%d", acc)
 	}
 	return "bad-op"
+}
+
+// c29Edge delivers a validly signed command stamped 5 s in the past / future to the real flooder with the
+// timestamp window set (accessor) relative to the age measured just before the call. The code reads
+// the clock once, between the harness's readings t0 and t1, so:
+//
+//	past,   out: window = age(t0) - 1 ns          -> age > window for sure              -> must be refused
+//	past,   in : window = age(t0) + 2 ms, and age(t1) <= window                        -> must be accepted
+//	future, in : window = lead(t0)  (the lead only shrinks)                             -> must be accepted
+//	future, out: window = lead(t0) - 2 ms, and lead(t1) > window                        -> must be refused
+//
+// When t1 shows the reading may have crossed the edge the attempt is repeated (fresh id); the
+// exact-equality instant itself cannot be hit from outside (that would need a clock seam).
+func c29Edge(w *c29World, side, where string, wake bool) string {
+	for attempt := 0; attempt < 50; attempt++ {
+		w.edgeSeq++
+		id := 700000 + w.edgeSeq
+		d := int64(-5)
+		if side == "future" {
+			d = 5
+		}
+		ts := uint64(time.Now().Unix() + d)
+		cmdTime := time.Unix(int64(ts), 0)
+		o := c29ID(w, 4)
+		var signable []byte
+		if wake {
+			signable = (&protocol.WakeCommand{OriginAgent: o, CommandID: id, Timestamp: ts}).SignableBytes()
+		} else {
+			signable = (&protocol.SleepCommand{OriginAgent: o, CommandID: id, Timestamp: ts}).SignableBytes()
+		}
+		sig := crypto.Sign(w.keys[0].PrivateKey, signable)
+		t0 := time.Now()
+		var win time.Duration
+		switch side + "/" + where {
+		case "past/out":
+			win = t0.Sub(cmdTime) - 1
+		case "past/in":
+			win = t0.Sub(cmdTime) + 2*time.Millisecond
+		case "future/in":
+			win = cmdTime.Sub(t0)
+		case "future/out":
+			win = cmdTime.Sub(t0) - 2*time.Millisecond
+		default:
+			return "bad-op"
+		}
+		w.f.VerifC29SetWindow(win)
+		var acc bool
+		if wake {
+			acc = w.f.HandleWakeCommand(c29ID(w, 1), &protocol.WakeCommand{OriginAgent: o, CommandID: id, Timestamp: ts, Signature: sig})
+		} else {
+			acc = w.f.HandleSleepCommand(c29ID(w, 1), &protocol.SleepCommand{OriginAgent: o, CommandID: id, Timestamp: ts, Signature: sig})
+		}
+		t1 := time.Now()
+		c29Fwd(w)
+		conclusive := true
+		switch side + "/" + where {
+		case "past/in":
+			conclusive = t1.Sub(cmdTime) <= win
+		case "future/out":
+			conclusive = cmdTime.Sub(t1) > win
+		}
+		if conclusive {
+			if acc {
+				return "acc=1"
+			}
+			return "acc=0"
+		}
+	}
+	return "inconclusive"
 }
 
 // c29Gen: (a) random histories with MaxSeenCacheSize 0 (every cleanup evicts everything: forced,
@@ -373,6 +457,29 @@ func c29Gen(w *bufio.Writer, seed int64, tier string) {
 			fmt.Fprintf(w, "reset %d %d %d 10000\nstress %d\n", c29B2i(signing), W, ttlMs, 8+r.intn(24))
 			continue
 		}
+		if r.chance(8) { // timestamp-window edge probes (each sets the window itself)
+			fmt.Fprintf(w, "reset 1 9 18500 10000\n")
+			for j := 0; j < 4; j++ {
+				fmt.Fprintf(w, "edge %s %s %s\n", r.pickS("past", "future"), r.pickS("in", "out"), r.pickS("s", "w"))
+			}
+			continue
+		}
+		if r.chance(12) { // cache-expiry edge, to the nanosecond: cleanup at SeenAt + TTL + delta
+			fmt.Fprintf(w, "reset %d %d %d 10000\n", c29B2i(signing), W, ttlMs)
+			fmt.Fprintf(w, "d s 1 4 7 r0 valid -\n")
+			if r.chance(50) { // a second entry, recorded at least a second later
+				fmt.Fprintf(w, "adv %d\nd w 2 5 8 r%d valid -\n", 1+r.intn(5), r.intn(3))
+			}
+			if r.chance(30) { // refreshed by a duplicate from another peer
+				a := 1 + r.intn(4)
+				fmt.Fprintf(w, "adv %d\nd s 3 4 7 r0 valid -\n", a)
+			}
+			fmt.Fprintf(w, "cleanupat 4 7 %d\nkeys\n", r.pick(-1000000, -1, 0, 0, 1, 1, 1000000))
+			if r.chance(50) {
+				fmt.Fprintf(w, "cleanupat 4 7 %d\nkeys\n", r.pick(0, 1))
+			}
+			continue
+		}
 		maxSize := r.pick(0, 10000, 10000, 10000)
 		fmt.Fprintf(w, "reset %d %d %d %d\n", c29B2i(signing), W, ttlMs, maxSize)
 		steps := 3 + r.intn(10)
@@ -380,32 +487,45 @@ func c29Gen(w *bufio.Writer, seed int64, tier string) {
 			steps = 30 + r.intn(60) // long history
 		}
 		var vnow int64
-		var pool []cmdT
+		type pooled struct {
+			cmdT
+			vts int64
+			rel bool
+		}
+		var pool []pooled
+		// a whole-second age k = vnow - vts is decided the same way on the real clock (which adds a
+		// fraction of a second) unless k = W-1 or k = -(W+1): those two are left out
+		ambiguous := func(p pooled) bool { return p.rel && (vnow-p.vts == W-1 || vnow-p.vts == -(W+1)) }
 		for s := 0; s < steps; s++ {
 			switch x := r.intn(100); {
 			case x < 62: // delivery
-				var c cmdT
+				var c pooled
 				if len(pool) > 0 && r.chance(45) { // replay (possibly from another peer)
 					c = pool[r.intn(len(pool))]
 					if r.chance(15) { // same key, other content
 						c.sig = sigs[r.intn(len(sigs))]
 					}
 				} else {
-					d := int64(r.pick(0, 0, 0, 3, -3, int(W), -int(W), int(W)-3, 3-int(W), int(W)+3, -int(W)-3, int(2*W), -int(2*W)))
-					ts := fmt.Sprintf("r%d", vnow+d)
-					if r.chance(4) {
-						ts = r.pickS("a0", "a4611686018427387904", "a20000000000", "a18446744073709551615")
+					d := int64(r.pick(0, 0, 0, 1, -1, 2, -2, int(W), -int(W), int(W)-2, 2-int(W), int(W)+1, -int(W)+1, -int(W)-2, int(2*W), -int(2*W)))
+					if r.chance(25) {
+						d = int64(r.intn(int(3*W+1))) - 3*W/2
 					}
-					c = cmdT{r.pickS("s", "w"), strconv.Itoa(r.pick(4, 4, 5, 1)), strconv.Itoa(1 + r.intn(12)), ts, sigs[r.intn(len(sigs))]}
+					c = pooled{cmdT{r.pickS("s", "w"), strconv.Itoa(r.pick(4, 4, 5, 1)), strconv.Itoa(1 + r.intn(12)), fmt.Sprintf("r%d", vnow+d), sigs[r.intn(len(sigs))]}, vnow + d, true}
+					if r.chance(4) {
+						c.ts, c.rel = r.pickS("a0", "a4611686018427387904", "a20000000000", "a18446744073709551615"), false
+					}
 					if r.chance(40) {
 						c.sig = "valid"
 					}
 					pool = append(pool, c)
 				}
+				if ambiguous(c) {
+					continue
+				}
 				seen := r.pickS("-", "-", "-", "1", "2.3", "0", "4")
 				fmt.Fprintf(w, "d %s %d %s %s %s %s %s\n", c.k, 1+r.intn(3), c.origin, c.id, c.ts, c.sig, seen)
 			case x < 76:
-				d := int64(r.pick(3, 3, 6, int(W), int(W)+3, int(2*W), int(2*W)+3, int(3*W)+3))
+				d := int64(r.pick(1, 2, 3, 5, 7, int(W)-1, int(W), int(W)+1, int(2*W)-1, int(2*W), int(2*W)+1, int(3*W)+2))
 				fmt.Fprintf(w, "adv %d\n", d)
 				vnow += d
 			case x < 88:
@@ -413,7 +533,15 @@ func c29Gen(w *bufio.Writer, seed int64, tier string) {
 			case x < 94:
 				fmt.Fprintf(w, "keys\n")
 			default:
-				fmt.Fprintf(w, "peer %d\n", 1+r.intn(5))
+				amb := false
+				for _, p := range pool { // the stored wake command is re-verified: same edge rule
+					if p.k == "w" && ambiguous(p) {
+						amb = true
+					}
+				}
+				if !amb {
+					fmt.Fprintf(w, "peer %d\n", 1+r.intn(5))
+				}
 			}
 		}
 	}
